@@ -415,3 +415,37 @@ package immutable
 //@   requires col != nil
 //@   ensures [one_row] col.Len == 1
 //@   ensures [null_iff_empty_payload] (len(data) == 0 ==> col.NilCount == 1 && len(col.Val) == 0) && (len(data) > 0 ==> col.NilCount == 0 && len(col.Val) == len(data))
+
+// ================================================================ C02: the meta index of a rewritten file covers its chunks
+//@ prop C02 C03
+// Readers prune a file by the [minTime, maxTime] of its meta-index items (and of the trailer) before they look at any
+// chunk. Every chunk written into an item widens that item's range and the trailer's to cover the chunk's own time range;
+// an item whose range stops at its first chunk hides the later data of the other series in it from time-ranged reads.
+//@ func (*StreamWriteFile).WriteMeta
+//@   requires c != nil && cm != nil
+//@   ghost mn int64 = 0
+//@   ghost mx int64 = 0
+//@   ghost got bool = false
+//@   call (*ChunkMeta).MinMaxTime
+//@     set mn = ret0
+//@     set mx = ret1
+//@     set got = true
+//@   call (*StreamWriteFile).SwitchChunkMeta
+//@     requires [index_item_covers_the_chunk] got && c.mIndex.minTime <= mn && c.mIndex.maxTime >= mx
+//@     requires [trailer_covers_the_chunk] got && c.trailer.minTime <= mn && c.trailer.maxTime >= mx
+//@     set switched = true
+//@   ghost switched bool = false
+//@   ensures [index_item_covers_the_chunk_when_kept_open] result == nil && got && !switched ==> c.mIndex.minTime <= mn && c.mIndex.maxTime >= mx && c.trailer.minTime <= mn && c.trailer.maxTime >= mx
+
+// ================================================================ C03: streaming compaction keeps every column
+//@ prop C03
+// The output schema of a series is the union of the schemas of ALL its source chunks: every source chunk that joins the
+// series' iterator list has had its columns merged into the schema first (a column present only in a later file must not
+// be dropped because the column COUNT happens to match).
+//@ func (*StreamIterators).genChunkSchema
+//@   stable immutable.FileIterator.curtChunkMeta immutable.StreamIterator.FileIterator
+//@   ghost last Ptr = nil
+//@   call (*StreamIterators).mergeSchema
+//@     set last = arg0
+//@   call append with c.chunkItrs
+//@     requires [schema_of_every_source_chunk_is_merged] last == itr.curtChunkMeta
